@@ -55,7 +55,14 @@ def agent_trace(n, alpha: Fraction | None, eps: float, q0: Fraction, steps, seed
         else:
             best = st[1]
             try:
-                r = env.get_reward(None, float(best))
+                if seed % 3 == 0:
+                    # the way the agent thread obtains it: step() sends the action, receives the outcome, returns the reward
+                    env._in_queue.put((None, float(best)))  # noqa: SLF001
+                    _obs, r, _term, _trunc, _info = env.step(0)
+                    while not env._out_queue.empty():  # noqa: SLF001
+                        env._out_queue.get_nowait()  # noqa: SLF001
+                else:
+                    r = env.get_reward(None, float(best))
             except Exception:  # noqa: BLE001
                 r = -12345.0
             rr, c1 = rat(r)
